@@ -23,7 +23,7 @@ PROP = 'C08'
 KNOWN = 'C08-list-append-in-resolution-order'
 
 GRAMMAR = """
-Model: objs+=Obj users+=User;
+Model: (first+=[Obj][','] '!')? objs+=Obj users+=User;
 Obj: 'obj' name=ID;
 User: 'user' name=ID ('refs' refs+=[Obj] ':')? ('one' one=[Obj] ':')? ('more' more+=[Obj][','])? ';';
 """
@@ -35,6 +35,8 @@ CASES = [
     ("obj a obj b obj c obj d user u refs a b c d : ;", 'one list of 4'),
     ("obj a obj b obj c user u refs a a b : more c, a, b ;", 'repeated targets, two lists'),
     ("obj a obj b obj c user u refs a b a : more c, a, c ;", 'non-adjacent repeats of a name within one list'),
+    # a list of forward references that starts with the very first character of the text
+    ("c, a, b ! obj a obj b obj c user u refs b a : ;", 'a list starting at offset 0'),
 ]
 
 
@@ -207,7 +209,7 @@ def run_case(ci, max_rounds, timeout_ms):
             return ('fail', str(e)[:60], sorted(sched))
         except Exception as e:  # noqa
             return ('bad', [{'error': '%s: %s' % (type(e).__name__, e)}], sorted(sched))
-        bad = []
+        bad = first_list_problems(m, text)
         for u in m.users:
             for an in ('refs', 'more'):
                 got = [o.name for o in getattr(u, an)]
@@ -222,6 +224,13 @@ def run_case(ci, max_rounds, timeout_ms):
     if not any(o[0] in ('ok', 'bad') for o in outs):
         raise RuntimeError('vacuous case (no schedule loads): %r -> %r' % (text, outs[:1]))
     return ctx, outs
+
+
+def first_list_problems(m, text):
+    """the model-level list `first` (references in front of everything else)"""
+    exp = [t.strip() for t in text.split('!')[0].split(',')] if '!' in text else []
+    got = [getattr(o, 'name', o) for o in m.first]
+    return [{'user': '<model>', 'attr': 'first', 'got': got, 'expected': exp}] if got != exp else []
 
 
 def expected_names(text, user, attr):
@@ -296,7 +305,7 @@ def replay_schedule(ci, schedule):
         if isinstance(e, TextXError):
             return False, 'load fails: %s' % e
         return True, [{'error': '%s: %s' % (type(e).__name__, e)}]
-    bad = []
+    bad = first_list_problems(m, text)
     for u in m.users:
         for an in ('refs', 'more'):
             got = [o.name for o in getattr(u, an)]
@@ -362,7 +371,7 @@ def main():
     import textx.model as M
     chk = Check(PROP, 'exploration')
     quick = chk.tier == 'quick'
-    cases = [0, 1, 2, 5] if quick else list(range(len(CASES)))
+    cases = [0, 1, 2, 5, 6] if quick else list(range(len(CASES)))
     max_rounds = 2 if quick else 3
     timeout_ms = 20000
     items = [(ci, max_rounds, timeout_ms) for ci in cases]
